@@ -49,6 +49,11 @@ CLAIMED = {
    text="TLC enumerates all ordered lists of <=3 W=4 prefixes (any host bits, /0../W, both families, malformed entries) x all addresses and checks Contains = exists-prefix; the replay places each case at 13+ bit offsets (word boundary, /0, /32, /128, v4-mapped block) and compares ipset.Contains with two naive oracles on 8-9M probes; the gate model's 99k terminal states run on the real handlers (wire-born and message-born, udp/tcp/doh/doq doubles) and on the registered default chain: denied => no bytes, nothing downstream, cache untouched.",
    design_ref="2.10",
    note="W=5 with every host-bit pattern is opt-in (VERIF_C17_DEEP); ratelimit/reflex exemption of internal queries is structural only (the sentinel address is loopback); IPv4-mapped prefix entries (::ffff:a.b.c.0/120) are counted as ambiguous, not judged."),
+ "C18": dict(
+   technique="TLA+ specs BlMatch.tla (names as label sequences; statement matcher vs transcription of Exists/matchHierarchy; Set/Remove/Query state machine) and BlPersist.tla (MutateAndSnapshot under mu, persist under saveMu as CreateTemp/Write*/Sync/Close/Rename steps with Crash after each, Reload) model-checked with TLC (MatchExact, WildcardSparesApex, WhitelistWins, WholeLabels; DiskIsASnapshot, CrashLeavesSnapshot, Converged, NewestWins, OneTemp, NeverBackwards, Terminates); every matcher state and every labelled edge of the 2-writer persistence graphs replayed on the real BlockList, schedules forced through verif gate points in persist, crash = directory copy + fresh reload, recorded traces validated by Trace_BlPersist",
+   text="Matcher: every state x query name of the exhaustive graph through real Exists/ServeDNS (null route for A/AAAA, empty authoritative answer otherwise, downstream untouched when blocked). Persistence: every interleaving edge of 2 writers (3 simulated) forced on real goroutines, the directory checked after every step, every crash point reloaded (the whole directory, as New() walks it), convergence after completion, plus concurrent API stress.",
+   design_ref="2.7",
+   note="Entries are LDH labels (no root entry, no escaped dots); crash points at gate granularity (per written line, not per byte); fsync durability and I/O error paths are not modelled. One defect found and repaired (fix: aff16bb leftover temp file loaded at start)."),
 }
 
 NOT_YET = {}
